@@ -172,6 +172,9 @@ func (w *walker) exprKids(n *Node, c Ctx) {
 		w.expr(&n.A, RValue, c)
 	case KSuperCall:
 		w.exprList(n.L, RValue, c)
+	case KTagged:
+		w.expr(&n.A, RCallee, c)
+		w.exprList(n.L, RValue, c)
 	case KEval:
 		w.eval(n, c)
 	case KArrPat, KObjPat:
